@@ -107,6 +107,11 @@ pub enum Step {
     Read,
     Confirm,
     Malformed,
+    /// a well-formed SELECT whose objects are not controls (refused without touching the control handler);
+    /// true: it bears the sequence number of the pending SELECT
+    BadSelect(bool),
+    /// OPERATE with the objects and sequence number + 1 of the last SELECT that was accepted, whatever came after it
+    OperateOld,
     Broadcast,
     Foreign,
     Repeat,
@@ -149,6 +154,8 @@ async fn run_history(a: &ShardArgs, idx: u64, steps: Vec<Step>, mut r: Rng, exha
     let mut sel: Option<Sel> = None;
     let mut last_frag: Option<Vec<u8>> = None;
     let mut last_objs: Vec<u8> = small_controls(&mut r);
+    // the last SELECT the outstation accepted: (sequence number, objects)
+    let mut last_valid: Option<(u8, Vec<u8>)> = None;
     // request bytes -> response bytes, to recognise echoes of an earlier response (C05 behaviour)
     let mut answered: Vec<(Vec<u8>, Vec<u8>)> = vec![];
     let mut sent_before: Vec<Vec<u8>> = vec![];
@@ -242,6 +249,31 @@ async fn run_history(a: &ShardArgs, idx: u64, steps: Vec<Step>, mut r: Rng, exha
                     objs[k] ^= 0x01;
                     label = "Operate(one byte differs)".into();
                 }
+                send = Some((
+                    master,
+                    out_addr,
+                    ra::B::request(ra::F_OPERATE, seq).raw(&objs).done(),
+                ));
+            }
+            Step::BadSelect(same) => {
+                seq = match (&sel, *same) {
+                    (Some(s), true) => s.seq,
+                    _ => next_seq(&mut r, seq),
+                };
+                let b = ra::B::request(ra::F_SELECT, seq);
+                let f = match r.below(3) {
+                    0 => b.all(60, 1).done(),
+                    1 => b.range8(30, 1, 0, 1, &[]).done(),
+                    _ => b.all(1, 0).done(),
+                };
+                send = Some((master, out_addr, f));
+            }
+            Step::OperateOld => {
+                let (s0, objs) = match &last_valid {
+                    Some((s0, o)) => (*s0, o.clone()),
+                    None => (seq, last_objs.clone()),
+                };
+                seq = (s0 + 1) & 0x0F;
                 send = Some((
                     master,
                     out_addr,
@@ -460,6 +492,7 @@ async fn run_history(a: &ShardArgs, idx: u64, steps: Vec<Step>, mut r: Rng, exha
                 }
             }
             if valid {
+                last_valid = Some((fseq, objs.clone()));
                 out::count("selects_successful", 1);
             } else {
                 out::count("selects_failed", 1);
@@ -476,7 +509,7 @@ async fn run_history(a: &ShardArgs, idx: u64, steps: Vec<Step>, mut r: Rng, exha
         } else if let Some(s) = &mut sel {
             if s.intervening.is_none() {
                 s.intervening = Some(match &step {
-                    Step::Operate(_) => "operate".to_string(),
+                    Step::Operate(_) | Step::OperateOld => "operate".to_string(),
                     other => format!("{other:?}").to_lowercase(),
                 });
             }
@@ -523,6 +556,14 @@ fn random_history(r: &mut Rng) -> Vec<Step> {
     let n = r.range(2, 10);
     let mut v = vec![];
     for _ in 0..n {
+        if r.chance(1, 10) {
+            v.push(if r.bool() {
+                Step::BadSelect(r.bool())
+            } else {
+                Step::OperateOld
+            });
+            continue;
+        }
         let s = match r.weighted(&[24, 30, 4, 4, 4, 4, 4, 4, 8, 10, 3, 3]) {
             0 => Step::Select,
             1 => Step::Operate(!r.chance(1, 8)),
@@ -556,7 +597,9 @@ fn wrap_history(r: &mut Rng) -> Vec<Step> {
     v
 }
 
-const ALPHABET: [Step; 12] = [
+const ALPHABET: [Step; 14] = [
+    Step::BadSelect(true),
+    Step::BadSelect(false),
     Step::Select,
     Step::Operate(true),
     Step::Operate(false),
@@ -589,6 +632,7 @@ pub fn run(a: &ShardArgs) -> Result<(), String> {
                 y.clone(),
                 Step::Operate(true),
             ]);
+            systematic.push(vec![Step::Select, x.clone(), y.clone(), Step::OperateOld]);
             if a.thorough() {
                 for z in &ALPHABET {
                     systematic.push(vec![x.clone(), y.clone(), z.clone(), Step::Operate(true)]);
